@@ -4,10 +4,17 @@
    accepts; the quantifier over sheets is discharged per generated twin pair.
    The loop mechanics themselves (models Comp/Blocks.v and Tmpl/RowLoop.v, run with the
    behaviour the probes of Gen/Tables.v find in the code) carry theorems for ALL sheets:
-   loop variables are lexically scoped and a loop over nothing is a pass-through. *)
+   loop variables are lexically scoped and a loop over nothing is a pass-through; and the
+   UNROLLING THEOREM (C03_desugar_equiv, second half of this file): for every sheet of the
+   block-mechanics model the parser reads successfully, the desugared sheet (Comp/Desugar.v:
+   loops unrolled into blocks with lexically scoped variables, excluded rows and blocks gone,
+   every cell a literal) is read successfully and hands FlowParser the same rows and the same
+   NodeGroup pushes/registrations in the same order; failures correspond as well.
+   What FlowParser does with those rows and groups (nodes, exits, edges) is compared on twins by
+   the checker above (C03_bisim_check_sound). *)
 From Coq Require Import List NArith Bool.
 From RPFT Require Import Base.Sexp Base.SexpEq Base.Result Gen.Tables Flow.Lts Flow.Flow Flow.FlowFacts.
-From RPFT Require Comp.Blocks Comp.BlocksFacts Cell.Cell Tmpl.MiniJinja Tmpl.RowLoop Tmpl.TmplFacts Tmpl.RowLoopFacts.
+From RPFT Require Comp.Blocks Comp.BlocksFacts Comp.Desugar Comp.DesugarFacts Comp.DesugarWitness Cell.Cell Tmpl.MiniJinja Tmpl.RowLoop Tmpl.TmplFacts Tmpl.RowLoopFacts.
 Import ListNotations.
 
 Theorem C03_bisim_check_sound : forall f g,
@@ -39,7 +46,7 @@ Example C03_loop_variables_lexically_scoped_nonvacuous :
   = Blocks.ROk (Blocks.mkP 4 BlocksFacts.w_ctx
       [Blocks.EvRow [] [97; 102; 116; 101; 114; 32; 67; 88; 86; 65; 76]%N; Blocks.EvInst 3; Blocks.EvEnd [49]%N;
        Blocks.EvInst 2; Blocks.EvRow [] [49; 98]%N; Blocks.EvInst 1; Blocks.EvEnter Blocks.BFor false;
-       Blocks.EvInst 2; Blocks.EvRow [] [48; 97]%N; Blocks.EvInst 1; Blocks.EvEnter Blocks.BFor false; Blocks.EvInst 0]).
+       Blocks.EvInst 2; Blocks.EvRow [] [48; 97]%N; Blocks.EvInst 1; Blocks.EvEnter Blocks.BFor false; Blocks.EvPush; Blocks.EvInst 0]).
 Proof. exact BlocksFacts.ctx_preserved_nonvacuous. Qed.
 Print Assumptions C03_loop_variables_lexically_scoped_nonvacuous.
 
@@ -77,7 +84,7 @@ Theorem C03_empty_loop_pass_through : forall pol rows f s bt s1 row x rest,
   Blocks.i_kind row = Blocks.KBeginFor -> Blocks.i_inc row = true -> Blocks.i_iter row = [] ->
   Blocks.i_vars row = x :: rest -> x <> [] ->
   Blocks.parse_block pol ScopeRestore EmptySkip true rows (S f) s bt false
-  = match Blocks.parse_block pol ScopeRestore EmptySkip true rows f (Blocks.log s1 (Blocks.EvEnter Blocks.BFor true)) Blocks.BFor true with
+  = match Blocks.parse_block pol ScopeRestore EmptySkip true rows f (Blocks.log (Blocks.log s1 Blocks.EvPush) (Blocks.EvEnter Blocks.BFor true)) Blocks.BFor true with
     | Blocks.ROk s2 => Blocks.parse_block pol ScopeRestore EmptySkip true rows f (Blocks.log s2 (Blocks.EvEnd (Blocks.i_id row))) bt false
     | Blocks.RErr e => Blocks.RErr e
     end.
@@ -91,7 +98,7 @@ Example C03_empty_loop_pass_through_nonvacuous :
   /\ Blocks.parse_block Strict ScopeRestore EmptySkip true BlocksFacts.e_rows 50 (Blocks.mkP 0 BlocksFacts.e_ctx []) Blocks.BRoot false
      = Blocks.ROk (Blocks.mkP 8 BlocksFacts.e_ctx
          [Blocks.EvRow [] [98; 121; 101]%N; Blocks.EvInst 7; Blocks.EvEnd [50]%N; Blocks.EvEnter Blocks.BBlock true;
-          Blocks.EvEnter Blocks.BFor true; Blocks.EvInst 1; Blocks.EvRow [] [104; 105]%N; Blocks.EvInst 0])
+          Blocks.EvEnter Blocks.BFor true; Blocks.EvPush; Blocks.EvInst 1; Blocks.EvRow [] [104; 105]%N; Blocks.EvInst 0])
   /\ Blocks.parse_block Strict ScopePop EmptyFallThrough false BlocksFacts.e_rows 50 (Blocks.mkP 0 BlocksFacts.e_ctx []) Blocks.BRoot false
      = Blocks.RErr Blocks.KeyErr.
 Proof. exact BlocksFacts.empty_loop_pass_through_nonvacuous. Qed.
@@ -134,3 +141,303 @@ Example C03_rowloop_empty_loop_skipped_nonvacuous :
      = Err MiniJinja.EKey.
 Proof. exact RowLoopFacts.rowloop_empty_loop_skipped_nonvacuous. Qed.
 Print Assumptions C03_rowloop_empty_loop_skipped_nonvacuous.
+
+(* ================================================================================================
+   THE UNROLLING THEOREM over the block-mechanics model (Comp/Blocks.v read by Comp/Desugar.v)
+   ================================================================================================ *)
+
+(* fuel is not part of the statement: more fuel never changes a result that was not OutOfFuel, and
+   the fuel run_sheet gives is always enough *)
+Theorem C03_fuel_monotone : forall pol scope emp tol rows f s bt o r,
+  Blocks.parse_block pol scope emp tol rows f s bt o = r -> r <> Blocks.RErr Blocks.OutOfFuel ->
+  forall f', f <= f' -> Blocks.parse_block pol scope emp tol rows f' s bt o = r.
+Proof. exact DesugarFacts.parse_block_mono. Qed.
+Print Assumptions C03_fuel_monotone.
+
+Theorem C03_fuel_never_runs_out : forall pol rows c,
+  Blocks.run_sheet pol rows c <> Blocks.RErr Blocks.OutOfFuel.
+Proof. exact DesugarFacts.run_sheet_fuel_suffices. Qed.
+Print Assumptions C03_fuel_never_runs_out.
+
+(* the code as probed in this run has the two repairs (regenerated Gen/Tables.v; this fact is what
+   ties the run_sheet statements below to the parameters ScopeRestore / EmptySkip / tolerant) *)
+Theorem C03_code_has_repaired_loop_mechanics :
+  loop_scope_policy = ScopeRestore /\ empty_loop_policy = EmptySkip /\ remove_tolerant = true.
+Proof. exact DesugarFacts.policies_repaired. Qed.
+Print Assumptions C03_code_has_repaired_loop_mechanics.
+
+(* THE THEOREM (for all sheets, contexts and undefined-variable policies; any nesting depth, any
+   number of rows and elements): if the sheet is read successfully then its desugaring is defined,
+   is literal (no begin_for, no include_if, no {{reference}}), is read successfully from the EMPTY
+   context, FlowParser receives the same rows, pushes and registers the same groups under the same
+   ids in the same order (toks; as a forest: shape), that forest is well formed, and the context is
+   back to what it was (loop variables are gone after end_for) *)
+Theorem C03_desugar_equiv : forall pol rows c s,
+  Blocks.run_sheet pol rows c = Blocks.ROk s ->
+  exists rows' s',
+    Desugar.desugar pol c rows = Blocks.ROk rows'
+    /\ forallb Desugar.row_is_plain_literal rows' = true
+    /\ Blocks.run_sheet pol rows' [] = Blocks.ROk s'
+    /\ Desugar.toks (rev (Blocks.p_log s')) = Desugar.toks (rev (Blocks.p_log s))
+    /\ Desugar.shape (rev (Blocks.p_log s')) = Desugar.shape (rev (Blocks.p_log s))
+    /\ (exists its, Desugar.shape (rev (Blocks.p_log s)) = Some its)
+    /\ Blocks.p_ctx s = c.
+Proof. exact DesugarFacts.desugar_equiv. Qed.
+Print Assumptions C03_desugar_equiv.
+
+(* the same for ANY fuel and with the behaviours as explicit parameters: the sugared sheet read by
+   the repaired mechanics (remove_from_context tolerant or not), the desugared sheet read under any
+   loop mechanics whatever (it has no loop) with every fuel above its length *)
+Theorem C03_desugar_equiv_any_fuel : forall pol tol scope' emp' tol' rows f c s,
+  Blocks.parse_block pol ScopeRestore EmptySkip tol rows f (Blocks.mkP 0 c []) Blocks.BRoot false = Blocks.ROk s ->
+  exists rows' s',
+    Desugar.ds pol f rows c Blocks.BRoot false = Blocks.ROk (rows', skipn (Blocks.p_pos s) rows)
+    /\ forallb Desugar.row_is_plain_literal rows' = true
+    /\ (forall g, length rows' < g ->
+          Blocks.parse_block pol scope' emp' tol' rows' g (Blocks.mkP 0 [] []) Blocks.BRoot false = Blocks.ROk s')
+    /\ Desugar.toks (rev (Blocks.p_log s')) = Desugar.toks (rev (Blocks.p_log s))
+    /\ (exists its, Desugar.shape (rev (Blocks.p_log s)) = Some its)
+    /\ Blocks.p_ctx s = c /\ Blocks.p_ctx s' = [].
+Proof. exact DesugarFacts.desugar_equiv_fuel. Qed.
+Print Assumptions C03_desugar_equiv_any_fuel.
+
+Example C03_desugar_equiv_nonvacuous :
+  exists s s',
+    Blocks.run_sheet Strict DesugarWitness.ex_rows DesugarWitness.ex_ctx = Blocks.ROk s
+    /\ Desugar.desugar Strict DesugarWitness.ex_ctx DesugarWitness.ex_rows = Blocks.ROk DesugarWitness.ex_out
+    /\ Blocks.run_sheet Strict DesugarWitness.ex_out [] = Blocks.ROk s'
+    /\ Desugar.shape (rev (Blocks.p_log s)) = Some DesugarWitness.ex_shape
+    /\ Desugar.shape (rev (Blocks.p_log s')) = Some DesugarWitness.ex_shape
+    /\ Blocks.p_ctx s = DesugarWitness.ex_ctx.
+Proof. exact DesugarWitness.desugar_equiv_nonvacuous. Qed.
+Print Assumptions C03_desugar_equiv_nonvacuous.
+
+(* the converse, with the failures: the sheet is rejected with error e exactly when its desugaring is
+   (unterminated / wrong terminator, begin_for without loop variable, undefined name or loop list) *)
+Theorem C03_desugar_fails_iff_sheet_fails : forall pol rows c e,
+  Blocks.run_sheet pol rows c = Blocks.RErr e <-> Desugar.desugar pol c rows = Blocks.RErr e.
+Proof. exact DesugarFacts.desugar_error_iff. Qed.
+Print Assumptions C03_desugar_fails_iff_sheet_fails.
+
+Theorem C03_desugar_defined_iff_sheet_accepted : forall pol rows c,
+  (exists s, Blocks.run_sheet pol rows c = Blocks.ROk s) <-> (exists rows', Desugar.desugar pol c rows = Blocks.ROk rows').
+Proof. exact DesugarFacts.desugar_defined_iff. Qed.
+Print Assumptions C03_desugar_defined_iff_sheet_accepted.
+
+Example C03_desugar_fails_iff_sheet_fails_nonvacuous :
+  Blocks.run_sheet Strict DesugarWitness.ex_bad DesugarWitness.ex_ctx = Blocks.RErr Blocks.Undefined
+  /\ Desugar.desugar Strict DesugarWitness.ex_ctx DesugarWitness.ex_bad = Blocks.RErr Blocks.Undefined
+  /\ Blocks.run_sheet Strict (firstn 12 DesugarWitness.ex_rows) DesugarWitness.ex_ctx = Blocks.RErr Blocks.Unterminated
+  /\ Desugar.desugar Strict DesugarWitness.ex_ctx (firstn 12 DesugarWitness.ex_rows) = Blocks.RErr Blocks.Unterminated.
+Proof. exact DesugarWitness.desugar_error_iff_nonvacuous. Qed.
+Print Assumptions C03_desugar_fails_iff_sheet_fails_nonvacuous.
+
+(* the two halves of the proof, as statements of their own.  (1) call by call: EVERY successful call of
+   _parse_block on the sugared sheet (any block type, any cursor position, skipped or not) yields with the
+   same fuel the desugaring of the rows from that position under the call's context, and the events it
+   logged have exactly the tokens of that desugared segment (LitSem: literal, balanced segments with their
+   tokens) — in particular a loop equals the block of its unrolled bodies under the same id *)
+Theorem C03_unrolling_call_by_call : forall pol tol rows f s bt omit s',
+  Blocks.parse_block pol ScopeRestore EmptySkip tol rows f s bt omit = Blocks.ROk s' ->
+  exists out evs,
+    Desugar.ds pol f (skipn (Blocks.p_pos s) rows) (Blocks.p_ctx s) bt omit = Blocks.ROk (out, skipn (Blocks.p_pos s') rows)
+    /\ Blocks.p_log s' = evs ++ Blocks.p_log s
+    /\ DesugarFacts.LitSem out (Desugar.toks (rev evs))
+    /\ (omit = true -> out = []).
+Proof. exact DesugarFacts.unroll_ok. Qed.
+Print Assumptions C03_unrolling_call_by_call.
+
+(* (2) the parser on a literal balanced segment lying at position q of ANY sheet, inside ANY block, under ANY
+   loop mechanics and context: it logs events with exactly the segment's tokens and goes on behind it *)
+Theorem C03_parser_on_desugared_segment : forall pol scope emp tol seg tk,
+  DesugarFacts.LitSem seg tk ->
+  forall rows q c0 lg, DesugarFacts.At rows q seg ->
+  exists evs', Desugar.toks (rev evs') = tk /\
+    forall bt f sfin,
+      Blocks.parse_block pol scope emp tol rows f (Blocks.mkP (q + length seg) c0 (evs' ++ lg)) bt false = Blocks.ROk sfin ->
+      exists f', Blocks.parse_block pol scope emp tol rows f' (Blocks.mkP q c0 lg) bt false = Blocks.ROk sfin.
+Proof. exact DesugarFacts.lit_run. Qed.
+Print Assumptions C03_parser_on_desugared_segment.
+
+(* ---- corollaries: what the desugaring IS (laws of Desugar.ds, any fuel) ---- *)
+
+(* rows under a false include_if and omitted blocks: the row disappears (its id and text do not occur
+   in the law: never rendered); an excluded begin_for / begin_block disappears with everything up to
+   its terminator; what is skipped is looked at by type only (any other rows of the same types,
+   under any other context, are skipped alike); in the parser, omitted content is never
+   instantiated and contributes no token to the shape *)
+Theorem C03_excluded_content_removed : forall pol,
+  (forall f r rest c bt,
+     Blocks.eval_inc pol c (Blocks.rw_inc r) = Blocks.ROk false -> Blocks.rw_kind r = Blocks.KPlain ->
+     Desugar.ds pol (S f) (r :: rest) c bt false = Desugar.ds pol f rest c bt false)
+  /\ (forall f r rest c bt,
+     Blocks.eval_inc pol c (Blocks.rw_inc r) = Blocks.ROk false ->
+     (Blocks.rw_kind r = Blocks.KBeginFor \/ Blocks.rw_kind r = Blocks.KBeginBlock) ->
+     Desugar.ds pol (S f) (r :: rest) c bt false
+     = match Desugar.ds pol f rest c (match Blocks.rw_kind r with Blocks.KBeginFor => Blocks.BFor | _ => Blocks.BBlock end) true with
+       | Blocks.ROk (_, rest2) => Desugar.ds pol f rest2 c bt false
+       | Blocks.RErr e => Blocks.RErr e
+       end)
+  /\ (forall f rest rest' c c' bt,
+     map Blocks.rw_kind rest = map Blocks.rw_kind rest' ->
+     Desugar.same_skip (Desugar.ds pol f rest c bt true) (Desugar.ds pol f rest' c' bt true))
+  /\ (forall scope emp tol rows f s bt s',
+     Blocks.parse_block pol scope emp tol rows f s bt true = Blocks.ROk s' ->
+     Blocks.p_ctx s' = Blocks.p_ctx s
+     /\ exists ev, Blocks.p_log s' = ev ++ Blocks.p_log s /\ Forall BlocksFacts.skip_event ev /\ Desugar.toks (rev ev) = []).
+Proof. exact DesugarFacts.excluded_content_removed. Qed.
+Print Assumptions C03_excluded_content_removed.
+
+Example C03_excluded_content_removed_nonvacuous :
+  (exists r rest, skipn 11 DesugarWitness.ex_rows = r :: rest
+     /\ Blocks.eval_inc Strict DesugarWitness.ex_c0 (Blocks.rw_inc r) = Blocks.ROk false /\ Blocks.rw_kind r = Blocks.KPlain
+     /\ Blocks.render Strict DesugarWitness.ex_c0 (Blocks.rw_text r) = Blocks.RErr Blocks.Undefined)
+  /\ (exists r rest, skipn 6 DesugarWitness.ex_rows = r :: rest
+     /\ Blocks.eval_inc Strict DesugarWitness.ex_c0 (Blocks.rw_inc r) = Blocks.ROk false /\ Blocks.rw_kind r = Blocks.KBeginBlock
+     /\ Blocks.render Strict DesugarWitness.ex_c0 (Blocks.rw_id r) = Blocks.RErr Blocks.Undefined
+     /\ Desugar.ds Strict 50 rest DesugarWitness.ex_c0 Blocks.BBlock true = Blocks.ROk ([], skipn 11 DesugarWitness.ex_rows)
+     /\ Desugar.ds Strict 50 (skipn 6 DesugarWitness.ex_rows) DesugarWitness.ex_c0 Blocks.BFor false
+        = Blocks.ROk (DesugarWitness.ex_only_a, skipn 15 DesugarWitness.ex_rows))
+  (* comparison cells (rows 12, 13 of the witness sheet): {{ x == "a" }} holds in the first copy of the body only; the
+     index variable is an int and never equals the str "0" (although it renders as 0); an unknown name is an error *)
+  /\ (Blocks.eval_inc Strict DesugarWitness.ex_c0 (Blocks.rw_inc (nth 12 DesugarWitness.ex_rows Desugar.end_row)) = Blocks.ROk true
+      /\ Blocks.eval_inc Strict DesugarWitness.ex_c1 (Blocks.rw_inc (nth 12 DesugarWitness.ex_rows Desugar.end_row)) = Blocks.ROk false
+      /\ Blocks.eval_inc Strict DesugarWitness.ex_c0 (Blocks.rw_inc (nth 13 DesugarWitness.ex_rows Desugar.end_row)) = Blocks.ROk false
+      /\ Blocks.render Strict DesugarWitness.ex_c0 [Blocks.Ref DesugarWitness.n_i] = Blocks.ROk DesugarWitness.n_0
+      /\ Blocks.eval_inc Strict DesugarWitness.ex_ctx (Blocks.rw_inc (nth 12 DesugarWitness.ex_rows Desugar.end_row)) = Blocks.RErr Blocks.Undefined).
+Proof. exact DesugarWitness.excluded_content_nonvacuous. Qed.
+Print Assumptions C03_excluded_content_removed_nonvacuous.
+
+(* a loop = begin_block (head rendered) . the body once per element, IN ORDER, the k-th copy
+   desugared in the context extended with x := e_k (and index variable := k) . end_block . the rest
+   of the enclosing block desugared in the context the loop was reached with *)
+Theorem C03_loop_body_repeated_in_order : forall pol f r rest c bt row x more,
+  Desugar.loop_head pol c r row x more -> Blocks.i_iter row <> [] ->
+  forall bodies rem out rem',
+    Desugar.bodies_of pol f rest c x (Desugar.idx_of more) (Blocks.i_iter row) bodies rem ->
+    Desugar.ds pol f rem c bt false = Blocks.ROk (out, rem') ->
+    Desugar.ds pol (S f) (r :: rest) c bt false
+    = Blocks.ROk (Desugar.lit_row Blocks.KBeginBlock (Blocks.i_id row) (Blocks.i_text row)
+                  :: concat bodies ++ Desugar.end_row :: out, rem').
+Proof. exact DesugarFacts.ds_loop. Qed.
+Print Assumptions C03_loop_body_repeated_in_order.
+
+(* zero elements: an empty block; the body is only skipped over (C03_excluded_content_removed, third part) *)
+Theorem C03_loop_over_nothing_is_an_empty_block : forall pol f r rest c bt row x more o rem out rem',
+  Desugar.loop_head pol c r row x more -> Blocks.i_iter row = [] ->
+  Desugar.ds pol f rest c Blocks.BFor true = Blocks.ROk (o, rem) ->
+  Desugar.ds pol f rem c bt false = Blocks.ROk (out, rem') ->
+  Desugar.ds pol (S f) (r :: rest) c bt false
+  = Blocks.ROk (Desugar.lit_row Blocks.KBeginBlock (Blocks.i_id row) (Blocks.i_text row) :: Desugar.end_row :: out, rem').
+Proof. exact DesugarFacts.ds_loop_empty. Qed.
+Print Assumptions C03_loop_over_nothing_is_an_empty_block.
+
+(* nesting composes: the body of a loop is desugared by the same function, so a loop inside a loop
+   is unrolled inside every copy of the outer body, in the context extended first with the outer
+   then with the inner variable *)
+Theorem C03_nesting_composes : forall pol f r1 r2 rest c bt row1 x more y more2,
+  Desugar.loop_head pol c r1 row1 x more -> Blocks.i_iter row1 <> [] ->
+  forall heads inner tails rem out rem',
+    Desugar.nested_bodies_of pol f r2 rest c x (Desugar.idx_of more) (Blocks.i_iter row1) y more2 heads inner tails rem ->
+    Desugar.ds pol (S f) rem c bt false = Blocks.ROk (out, rem') ->
+    Desugar.ds pol (S (S f)) (r1 :: r2 :: rest) c bt false
+    = Blocks.ROk (Desugar.lit_row Blocks.KBeginBlock (Blocks.i_id row1) (Blocks.i_text row1)
+                  :: concat (map Desugar.nested_block (combine heads (combine inner tails))) ++ Desugar.end_row :: out, rem').
+Proof. exact DesugarFacts.ds_nested_loops. Qed.
+Print Assumptions C03_nesting_composes.
+
+(* "with the loop (and optional index) variable SUBSTITUTED": desugaring the body in the context extended
+   with x := e (and i := n) is desugaring, in the context the loop was reached with, the body in which
+   {{x}} and {{i}} have been replaced textually (in row ids, texts, include_if and loop lists; the index
+   variable first: it is bound last) — when no loop inside the body binds one of the two names again
+   (when one does, the extended context IS the definition: the inner binding shadows, and only inside) *)
+Theorem C03_loop_variable_substituted : forall pol f rest c x idx e n bt omit b rem,
+  Forall (Desugar.no_rebind x) rest -> (forall i, idx = Some i -> Forall (Desugar.no_rebind i) rest) ->
+  Desugar.ds pol f rest (Blocks.bind_loop c x idx e n) bt omit = Blocks.ROk (b, rem) ->
+  Desugar.ds pol f (Desugar.subst_loop x idx e n rest) c bt omit = Blocks.ROk (b, Desugar.subst_loop x idx e n rem).
+Proof. exact DesugarFacts.ds_body_substituted. Qed.
+Print Assumptions C03_loop_variable_substituted.
+
+Example C03_loop_variable_substituted_nonvacuous :
+  Forall (Desugar.no_rebind DesugarWitness.n_cx) (skipn 3 DesugarWitness.ex_rows)
+  /\ Forall (Desugar.no_rebind DesugarWitness.n_x) (skipn 3 DesugarWitness.ex_rows)
+  /\ Desugar.ds Strict 40 (skipn 3 DesugarWitness.ex_rows) DesugarWitness.ex_c00 Blocks.BFor false
+     = Blocks.ROk (DesugarWitness.ex_b00, skipn 5 DesugarWitness.ex_rows)
+  /\ Desugar.ds Strict 40 (Desugar.subst_loop DesugarWitness.n_cx (Some DesugarWitness.n_x) DesugarWitness.n_p 0 (skipn 3 DesugarWitness.ex_rows))
+        DesugarWitness.ex_c0 Blocks.BFor false
+     = Blocks.ROk (DesugarWitness.ex_b00,
+                   Desugar.subst_loop DesugarWitness.n_cx (Some DesugarWitness.n_x) DesugarWitness.n_p 0 (skipn 5 DesugarWitness.ex_rows))
+  /\ nth 0 (Desugar.subst_loop DesugarWitness.n_cx (Some DesugarWitness.n_x) DesugarWitness.n_p 0 (skipn 3 DesugarWitness.ex_rows)) Desugar.end_row
+     = DesugarWitness.ex_row3_substituted.
+Proof. exact DesugarWitness.body_substituted_nonvacuous. Qed.
+Print Assumptions C03_loop_variable_substituted_nonvacuous.
+
+(* ... and nothing is left to unroll at any depth: a desugared sheet desugars to itself, in any context *)
+Theorem C03_desugared_sheet_is_a_fixed_point : forall pol rows c rows' c',
+  Desugar.desugar pol c rows = Blocks.ROk rows' -> Desugar.desugar pol c' rows' = Blocks.ROk rows'.
+Proof. exact DesugarFacts.desugar_idempotent. Qed.
+Print Assumptions C03_desugared_sheet_is_a_fixed_point.
+
+Example C03_nesting_composes_nonvacuous :
+  exists row1,
+    Desugar.loop_head Strict DesugarWitness.ex_ctx (nth 1 DesugarWitness.ex_rows Desugar.end_row) row1 DesugarWitness.n_x [DesugarWitness.n_i]
+    /\ Blocks.i_iter row1 = DesugarWitness.ex_outer_elems
+    /\ Desugar.nested_bodies_of Strict 40 (nth 2 DesugarWitness.ex_rows Desugar.end_row) (skipn 3 DesugarWitness.ex_rows)
+         DesugarWitness.ex_ctx DesugarWitness.n_x (Some DesugarWitness.n_i) DesugarWitness.ex_outer_elems
+         DesugarWitness.n_cx [DesugarWitness.n_x] DesugarWitness.ex_heads DesugarWitness.ex_inner DesugarWitness.ex_tails
+         (skipn 15 DesugarWitness.ex_rows)
+    /\ Desugar.ds Strict 41 (skipn 15 DesugarWitness.ex_rows) DesugarWitness.ex_ctx Blocks.BRoot false
+       = Blocks.ROk (skipn 14 DesugarWitness.ex_out, [])
+    /\ Desugar.ds Strict 42 (skipn 1 DesugarWitness.ex_rows) DesugarWitness.ex_ctx Blocks.BRoot false
+       = Blocks.ROk (skipn 1 DesugarWitness.ex_out, []).
+Proof. exact DesugarWitness.nested_loops_nonvacuous. Qed.
+Print Assumptions C03_nesting_composes_nonvacuous.
+
+Example C03_loop_over_nothing_is_an_empty_block_nonvacuous :
+  exists row,
+    Desugar.loop_head Strict DesugarWitness.ex_ctx (nth 15 DesugarWitness.ex_rows Desugar.end_row) row DesugarWitness.n_y []
+    /\ Blocks.i_iter row = []
+    /\ Desugar.ds Strict 40 (skipn 16 DesugarWitness.ex_rows) DesugarWitness.ex_ctx Blocks.BFor true
+       = Blocks.ROk ([], skipn 18 DesugarWitness.ex_rows)
+    /\ Desugar.ds Strict 40 (skipn 18 DesugarWitness.ex_rows) DesugarWitness.ex_ctx Blocks.BRoot false
+       = Blocks.ROk (DesugarWitness.ex_after_loops, [])
+    /\ Desugar.ds Strict 41 (skipn 15 DesugarWitness.ex_rows) DesugarWitness.ex_ctx Blocks.BRoot false
+       = Blocks.ROk (DesugarWitness.ex_empty_block, []).
+Proof. exact DesugarWitness.empty_loop_nonvacuous. Qed.
+Print Assumptions C03_loop_over_nothing_is_an_empty_block_nonvacuous.
+
+(* ---- what fails under the other behaviours (the code before the repairs): witnesses ---- *)
+
+(* dict.pop without restoring (ScopePop): the witness sheet is rejected although its desugaring is
+   fine; read leniently it is accepted with another shape and the context has lost cx *)
+Example C03_desugar_equiv_under_scope_pop_refuted :
+  Blocks.parse_block Strict ScopePop EmptySkip true DesugarWitness.ex_rows (Desugar.sheet_fuel DesugarWitness.ex_rows)
+    (Blocks.mkP 0 DesugarWitness.ex_ctx []) Blocks.BRoot false = Blocks.RErr Blocks.Undefined
+  /\ Desugar.desugar Strict DesugarWitness.ex_ctx DesugarWitness.ex_rows = Blocks.ROk DesugarWitness.ex_out
+  /\ exists s, Blocks.parse_block Lenient ScopePop EmptySkip true DesugarWitness.ex_rows (Desugar.sheet_fuel DesugarWitness.ex_rows)
+                 (Blocks.mkP 0 DesugarWitness.ex_ctx []) Blocks.BRoot false = Blocks.ROk s
+       /\ Blocks.cget (Blocks.p_ctx s) DesugarWitness.n_cx = None
+       /\ Desugar.shape (rev (Blocks.p_log s)) <> Some DesugarWitness.ex_shape
+       /\ Desugar.desugar Lenient DesugarWitness.ex_ctx DesugarWitness.ex_rows = Blocks.ROk DesugarWitness.ex_out.
+Proof. exact DesugarWitness.scope_pop_refuted. Qed.
+Print Assumptions C03_desugar_equiv_under_scope_pop_refuted.
+
+(* the body of a loop over nothing left to the enclosing block (EmptyFallThrough): the witness sheet is
+   rejected; and a begin_for over nothing WITHOUT end_for is accepted although it has no desugaring *)
+Example C03_desugar_equiv_under_empty_fall_through_refuted :
+  Blocks.parse_block Strict ScopeRestore EmptyFallThrough true DesugarWitness.ex_rows (Desugar.sheet_fuel DesugarWitness.ex_rows)
+    (Blocks.mkP 0 DesugarWitness.ex_ctx []) Blocks.BRoot false = Blocks.RErr Blocks.Undefined
+  /\ (exists s, Blocks.parse_block Strict ScopeRestore EmptyFallThrough true DesugarWitness.ft_rows (Desugar.sheet_fuel DesugarWitness.ft_rows)
+                  (Blocks.mkP 0 [] []) Blocks.BRoot false = Blocks.ROk s)
+  /\ Desugar.desugar Strict [] DesugarWitness.ft_rows = Blocks.RErr Blocks.Unterminated.
+Proof. exact DesugarWitness.empty_fall_through_refuted. Qed.
+Print Assumptions C03_desugar_equiv_under_empty_fall_through_refuted.
+
+(* remove_from_context not tolerant: only the failure direction breaks (KeyError on the loop over
+   nothing); C03_desugar_equiv_any_fuel does not need the tolerance *)
+Example C03_desugar_fails_iff_needs_tolerant_remove_refuted :
+  Blocks.parse_block Strict ScopeRestore EmptySkip false DesugarWitness.ex_rows (Desugar.sheet_fuel DesugarWitness.ex_rows)
+    (Blocks.mkP 0 DesugarWitness.ex_ctx []) Blocks.BRoot false = Blocks.RErr Blocks.KeyErr
+  /\ Desugar.desugar Strict DesugarWitness.ex_ctx DesugarWitness.ex_rows = Blocks.ROk DesugarWitness.ex_out.
+Proof. exact DesugarWitness.remove_not_tolerant_refuted. Qed.
+Print Assumptions C03_desugar_fails_iff_needs_tolerant_remove_refuted.
